@@ -876,7 +876,10 @@ def parse_insn_operand(ctx, insn_name, operand_idx, **kwargs):
     else:
         operand_type = int
 
-    assert operand_type in (str, int)
+    if operand_type not in (str, int):
+        # An excess operand in the position of a code block (e.g. '.repeat 1, 2 { ... }'): parse it
+        # as an expression, the compiler will report the wrong number of operands
+        operand_type = int
 
     if operand_type is str:
         return long_string(ctx, **kwargs)
